@@ -23,7 +23,7 @@ WORKERS = {"quick": 4, "thorough": 16}
 WTESTS = {"groups": ['parser_chains'], "tests": ['tests/dec', 'tests/decay']}
 REQUIRED = {"product>=2x2-in-one-line": 30, "line-with>=3-multi-mode-daughters": 10, "line-without-daughters": 20, "decaying-alias-at-depth>=2": 10,
             "decaying-alias-top": 10, "non-decaying-alias": 20, "empty-block-daughter": 20, "same-decaying-daughter-twice": 20, "paths>=50": 20,
-            "corpus-mother": 20, "C10.expand.count_and_paths": 100}
+            "corpus-mother": 20, "expand-after-chains-with-stable-set": 20, "two-decaying-names-of-one-particle": 5, "C10.expand.count_and_paths": 100}
 ASSUMPTIONS = ["names have balanced parentheses and no blanks; table sets are acyclic", "default descriptor format while expanding"]
 
 
@@ -46,6 +46,19 @@ def classify(ctx, T, m, al, memo):
             ctx.hit("same-decaying-daughter-twice")
     if m in al:
         ctx.hit("decaying-alias-top")
+    reach, st = set(), [m]
+    while st:
+        x = st.pop()
+        if x in reach:
+            continue
+        reach.add(x)
+        st += [y for ln in T[x] for y in ln["fs"] if y in T]
+    shown = {}
+    for x in reach:
+        if T[x]:
+            shown.setdefault(al.get(x, x), set()).add(x)
+    if any(len(v) >= 2 for v in shown.values()):
+        ctx.hit("two-decaying-names-of-one-particle")
 
     def deep_alias(x, d, seen):
         if x in seen:
@@ -74,6 +87,15 @@ def check(ctx, p, T, m, al, wit, workload):
     if count >= 50:
         ctx.hit("paths>=50")
     w = {**wit, "mother": m}
+    # a quota of expansions follows other queries on the same instance (chains with a stable set cutting below the first level)
+    if ctx.rng.random() < 0.35:
+        deep = sorted({x for ln in T[m] for y in ln["fs"] if y in T for l2 in T[y] for x in l2["fs"] if x in T})
+        if deep:
+            S = ctx.rng.sample(deep, min(len(deep), ctx.rng.choice([1, 2])))
+            w["before"] = ["build_decay_chains", m, S]
+            ctx.hit("expand-after-chains-with-stable-set")
+            ctx.guard("chain-before-expand", w, p.build_decay_chains, m, S)
+            contracts.drain()
     ok, got = ctx.guard("expand", w, p.expand_decay_modes, m)
     for v in contracts.drain():
         ctx.violate(v["mechanism"], v["message"], w)
